@@ -3,11 +3,14 @@
 Spec: spec/Processor.tla (thread -> call stack mapping, dump-writer skip, requesting thread as a set, context
 preference, crash address / reason class rules, process id source, per-frame unloaded-module offsets).
 Binding: G - every dump description TLC reaches is serialised by the frozen vendored writer (vf-synth), processed
-by the real process_minidump and compared field by field; equality is the property."""
+by the real process_minidump and compared field by field; equality is the property.
+spec/CrashReason.tla - the crash reason / crash address decision table (OS x CPU x exception code x flags x parameter count
+x parameter classes): every finished record becomes an exception stream, and the reason string and the address the real
+pipeline reports must be the ones the table prescribes."""
 import json
 from . import core
 
-ACTIONS = ["AddThread", "SetException", "SetBreakpad", "SetPlatform", "SetMisc", "SetStatus"]
+ACTIONS = ["AddThread", "SetException", "SetBreakpad", "SetPlatform", "SetMisc", "SetStatus", "SetStamp"]
 
 
 def run(ctx):
@@ -19,19 +22,30 @@ def run(ctx):
     for need in ("threads:0", "threads:1", "threads:2", "with-exception", "has-requesting-thread"):
         if rep["classes"].get(need, 0) == 0:
             raise core.ToolFailure("vacuous replay: class %s never exercised" % need)
+    cr = ctx.tlc("CrashReason", "MC_CrashReason_" + ctx.tier, coverage="separate", required_actions=["SetOs", "SetCpu", "SetCode", "SetFlags", "SetParams", "SetAddr", "Finish"],
+                 timeout=3000, out_name="crashreason")
+    if cr.violated:
+        raise core.ToolFailure("design-level invariant %s of CrashReason.tla is violated in the model" % cr.violated)
+    rep2 = ctx.read_harness_report(ctx.harness("replay_crashreason", [cr.out_path], out_name="replay_crashreason.out", timeout=3000))
+    for need in ("os:windows", "os:linux", "os:android", "os:mac", "os:ios", "os:other", "shape:av_kind", "shape:inpage_kind", "shape:fastfail", "shape:sig_kind",
+                 "shape:sig_sicode", "shape:sig_hex", "shape:mac_kind", "shape:mac_general", "shape:unknown", "shape:win_unknown"):
+        if rep2["classes"].get(need, 0) == 0:
+            raise core.ToolFailure("vacuous replay: CrashReason class %s never exercised" % need)
     cov = {
-        "states": mc.distinct, "transitions": mc.generated,
-        "traces_validated_against_impl": rep["evaluations"],
+        "states": mc.distinct + cr.distinct, "transitions": mc.generated + cr.generated,
+        "traces_validated_against_impl": rep["evaluations"] + rep2["evaluations"],
         "samples": rep["samples"][:4], "exhaustive": True,
         "evaluations": rep["evaluations"], "distinct_nontrivial": rep["distinct_nontrivial"],
         "rule": "dump descriptions reachable by adding <= MaxThreads threads (ids {1,2} with duplicates, readable / unreadable context, named or not, ip in a "
                 "loaded module / one / two unloaded modules / nowhere), an exception record (thread id present / absent / dump-writer; context absent / "
                 "unreadable / readable; code x parameter count x sign-extended addresses x access kind), Breakpad info (dump / requesting ids incl. invalid), "
                 "5 OS x CPU platforms, misc info with / without pid, /proc status; independent dimensions are varied separately (see Processor.tla)",
-        "tlc": {"Processor": mc.as_dict()}, "replay_classes": rep["classes"],
+        "tlc": {"Processor": mc.as_dict(), "CrashReason": cr.as_dict()}, "replay_classes": rep["classes"], "crashreason_classes": rep2["classes"],
+        "crashreason_rule": "every exception record reachable by choosing OS (6) x CPU (5) x code (11 Windows / 9 Linux / 8 Mac classes) x flags (9 values) x parameter count 0..3 x "
+                            "access kind / fast-fail code (5) x NTSTATUS class (3) x sign-extended addresses",
     }
     return ctx.finish("model_checking", cov, assumptions=[
-        "the documented rules are those transcribed in Processor.tla; crash reasons are judged for the Windows access-violation classes only",
+        "the documented rules are those transcribed in Processor.tla and CrashReason.tla; number <-> name tables are frozen copies of the platform headers' constants (harness/src/bin/replay_crashreason.rs); EXC_RESOURCE / EXC_GUARD payload formatting is not judged",
         "dumps are written by the frozen vendored writer harness/vendor/vf-synth (exception context located by a two-pass layout)",
         "0..32 threads of the statement are covered up to MaxThreads only"])
 
